@@ -739,7 +739,7 @@ def scope_printed(root, texts):
 
 def scope_stream(run, rng, thorough):
     import time
-    n = 1500 if thorough else 260
+    n = 1500 if thorough else 220
     docs = [c['doc'] for c in load_corpus('scope')] + [gen_scope_node(rng, 0, [0], False) for _ in range(n)]
     cases = [{'html': scope_html(d)} for d in docs]
     t0 = time.time()
@@ -975,7 +975,7 @@ def nodes_of(root):
 
 def mixed_stream(run, rng, thorough):
     import time
-    docs = [gen_mixed_doc(rng) for _ in range(900 if thorough else 130)]
+    docs = [gen_mixed_doc(rng) for _ in range(900 if thorough else 110)]
     cases = [{'html': mixed_html(d)} for d in docs]
     t0 = time.time()
     outs = common.run_impl('impl_c15', 'render_mixed', cases, limit=120)
